@@ -4,6 +4,7 @@ from pyvc.contracts import contract, macro
 E = "paranoid_crypto/lib/ec_util.py"
 CURVE_FIELDS = {"a": "int", "b": "int", "mod": "int", "n": "int", "h": "int", "g": "tuple[int,int]"}
 CURVE_REQ = ["self.mod >= 3", "self.n >= 2", "self.h >= 1"]
+REPLAY_CURVE = "EcCurve('replay', self_a, self_b, self_mod, self_g[0], self_g[1], self_n, self_h)"
 # a well-formed affine point: both coordinates None (infinity) or both integers
 macro("wf_point", ["p"], "(p[0] is None) == (p[1] is None)")
 macro("is_inf", ["p"], "p[0] is None and p[1] is None")
@@ -11,6 +12,7 @@ macro("is_inf", ["p"], "p[0] is None and p[1] is None")
 
 @contract(f"{E}::EcCurve.TransformOrderLen")
 class TransformOrderLen:
+  replay_self = REPLAY_CURVE
   params = {"h": "int", "hlen": "int"}
   self_fields = CURVE_FIELDS
   requires = CURVE_REQ + ["h >= 0", "hlen >= 0"]
@@ -24,6 +26,7 @@ class TransformOrderLen:
 
 @contract(f"{E}::EcCurve.HiddenNumberParams")
 class HiddenNumberParams:
+  replay_self = REPLAY_CURVE
   params = {"r": "int", "s": "int", "z": "int"}
   self_fields = CURVE_FIELDS
   requires = CURVE_REQ + ["gcd(s, self.n) == 1"]
@@ -55,6 +58,7 @@ class HiddenNumberParams:
 
 @contract(f"{E}::EcCurve.OnCurve")
 class OnCurve:
+  replay_self = REPLAY_CURVE
   params = {"p": "point"}
   self_fields = CURVE_FIELDS
   requires = CURVE_REQ + ["wf_point(p)"]
@@ -93,6 +97,7 @@ class Multiply:
 
 @contract(f"{E}::EcCurve.IsValidPublicKey")
 class IsValidPublicKey:
+  replay_self = REPLAY_CURVE
   params = {"p": "point"}
   self_fields = CURVE_FIELDS
   requires = CURVE_REQ + ["wf_point(p)"]
